@@ -288,6 +288,9 @@ func (sv *Solver) solveOne(c *Ctx, o Obl, timeout int, wantModel bool) OblResult
 	// with quantified contracts the quantifier-free strengthening (quant.go) is tried first: unsat there implies unsat.
 	qf := c.qfQuery(o)
 	q := c.queryText(o, false, nil)
+	if d := os.Getenv("VCGO_DUMP_OBL"); d != "" && strings.Contains(o.Name, d) {
+		os.WriteFile("/tmp/dumpobl_"+sanitizeSym(o.Name)+".smt2", []byte(q), 0o644)
+	}
 	if sv.DumpDir != "" && qf != "" {
 		os.MkdirAll(sv.DumpDir, 0o755)
 		os.WriteFile(fmt.Sprintf("%s/QF_%s.smt2", sv.DumpDir, sanitizeSym(o.Name)), []byte(qf), 0o644)
@@ -441,7 +444,8 @@ func (sv *Solver) solveOne(c *Ctx, o Obl, timeout int, wantModel bool) OblResult
 		var cj []raceJob
 		for _, sn := range []string{"z3-new", "z3-euf", "z3", "cvc5"} {
 			if sn != r.Solver && !(r.Solver == "z3-new" && sn == "z3-euf") && !(r.Solver == "z3-euf" && sn == "z3-new") {
-				cj = append(cj, raceJob{sn, usedQ, true})
+				// a weakened formulation (instantiated / sliced hypotheses) can only confirm: `sat` there says nothing
+				cj = append(cj, raceJob{sn, usedQ, usedQ == q})
 				if usedQ != q {
 					cj = append(cj, raceJob{sn, q, true})
 				}
